@@ -10,7 +10,7 @@ use std::net::IpAddr;
 
 fn budget(t: Tier) -> u64 {
     match t {
-        Tier::Quick => 900,
+        Tier::Quick => 2_700,
         Tier::Thorough => 50_000,
     }
 }
@@ -32,6 +32,7 @@ fn gen(seed: u64, idx: u64, _tier: Tier) -> Plan {
         s.client_stats = Some("on".into());
         s.persist_dir = Some("/tmp".into());
         s.status_interval = Some(*rng.pick(&[20i64, 30]));
+        s.stats_limit = Some(*rng.pick(&[5_000_000i64, 5_000_000, 3, 8]));
     } else {
         plan.params.insert("snap_stats".into(), 1);
         s.log_level = Some(0);
@@ -233,12 +234,20 @@ fn check(plan: &Plan, out: &RunOut) -> CheckOut {
             co.probe("reporter_merged_snapshots_from_ge_2_workers");
         }
         let server_alive = out.ctx.server_procs.first().map(|p| out.world.procs[*p].exit.is_none()).unwrap_or(false);
+        let limit = spec.stats_limit.unwrap_or(5_000_000) as u64;
+        let may_overflow = t.len() as u64 >= limit;
+        if may_overflow {
+            co.probe("stats_overflow_path_reporter");
+        }
         if server_alive && !t.is_empty() {
             for (ip, want) in &t {
                 let got = csv_sum.get(ip).copied().unwrap_or([0; 8]);
                 for i in 0..8 {
-                    if got[i] != want[i] {
-                        co.violate("C17", "stats_not_conserved", format!("C17|stats_not_conserved|reporter_csv|counter={}", KINDS[i]), format!("address {}: the persisted statistics say {} = {}, the kernel saw {} ({} file(s))", ip, KINDS[i], got[i], want[i], files));
+                    // once a worker's limit is reached events are counted as overflow instead:
+                    // what is persisted may then only be lower
+                    let bad = if may_overflow { got[i] > want[i] } else { got[i] != want[i] };
+                    if bad {
+                        co.violate("C17", "stats_not_conserved", format!("C17|stats_not_conserved|reporter_csv|counter={}{}", KINDS[i], if may_overflow { "|overflowing" } else { "" }), format!("address {}: the persisted statistics say {} = {}, the kernel saw {} ({} file(s))", ip, KINDS[i], got[i], want[i], files));
                     }
                 }
             }
